@@ -55,6 +55,17 @@ def odd_answer_stage(ctx, V, exe, n):
             ask("status n0", ["n0"])
             S.append(("devstate", "d0", "OFF" if first == "ON" else "ON"))
             ask("status n0", ["n0"])
+        elif i % 6 == 3:
+            # (d) two NODE-LESS queries; for the second one the device leaves out n0's line (or says nothing at all) after the outlets
+            # changed state: n0 is unknown - whatever an earlier query of any kind found out about it is gone with that query's list
+            sc.tags["style"] = "c03-stale"
+            first = rng.choice(["ON", "OFF"]); sc.tags["first"] = first
+            q = rng.choice(["status", "status", "beacon"]) if False else "status"
+            S.append(("devstate", "d0", first))
+            ask(q, ["n0", "n1"])
+            S.append(("devstate", "d0", "OFF" if first == "ON" else "ON"))
+            S.append(("verdict", "d0", "p1", None) if rng.random() < 0.6 else ("devmode", "d0", "silent"))
+            ask(q, ["n0", "n1"])
         elif i % 2 == 0:
             for _ in range(3):
                 S.append(("verdict", "d0", rng.choice(["p1", "p2"]), rng.choice(["on", "off", "Offline", "nonsense", "oFF", "conn", "On", "0n", "offON"[:3]])))
@@ -70,6 +81,11 @@ def odd_answer_stage(ctx, V, exe, n):
     def mon_c03_sited(sess, sc):
         # the surplus-answer histories have their own site, so that the known finding F43 does not hide any other stale state
         bad = [(c, "surplus-answer" if (sc.tags.get("style") == "c03-surplus" and c == "status-invented") else s_, d) for c, s_, d in pmcheck.mon_c03(sess, sc)]
+        if sc.tags.get("style") == "c03-stale" and sess.alive_after_script:
+            reps = [r for r in (pmcheck.split_replies(sess.client_out.get(0, b"")) or []) if isinstance(r[0], int)]
+            word = sc.tags["first"].lower()
+            if len(reps) >= 2 and any(re.match(rb"302 %s: +n(0|\[0-1\])" % word.encode(), ln) for ln in reps[1][1]):
+                bad.append(("status-invented", "stale-state", "the second node-less `status` shows n0 %s: its device said nothing about n0 this time (and the outlets had changed); that is what the FIRST query found out" % word))
         if sc.tags.get("style") == "c03-surplus" and sess.alive_after_script:
             # mon_c03 asks whether the device EVER said so; here the question is whether it said so in answer to THIS query: by the
             # second query every outlet reports the opposite of `first`
